@@ -83,10 +83,10 @@ def single(env):
     return MultiToSingleWrapper(env) if tuple(env.reward_spec.shape) != () else env
 
 
-def run_gym(R, name, K):
+def run_gym(R, name, K, over=None):
     import jumanji.wrappers as W
     WC.set_mode(name)
-    env = single(configs.make(name))
+    env = single(configs.make(name, **(over or {})))
     spec = env.action_spec
     ctx = Ctx(max_unroll=24)
     key = ctx.fresh_arr("key", (2,), np.uint32)
@@ -172,8 +172,15 @@ def run_gym(R, name, K):
         o2, _ = gw.reset(seed=seed)
         return o1, o2
     seed = ctx.fresh_arr("seed", (), np.int32, 0, 1 << 20)
-    with stubbed():
-        o1, o2 = S.call(ctx, reseed, seed, R=R, name="JumanjiToGymWrapper.reset(seed=s) twice")
+    traceable = True
+    try:
+        with stubbed():
+            o1, o2 = S.call(ctx, reseed, seed, R=R, name="JumanjiToGymWrapper.reset(seed=s) twice")
+    except (jax.errors.TracerBoolConversionError, jax.errors.ConcretizationTypeError, jax.errors.TracerIntegerConversionError) as e:
+        # the adapter branches on the VALUE of the seed in Python (legitimate: real callers pass a Python int), so the seed cannot be
+        # a symbolic variable for this code; the law is then decided on the concrete seeds below only, and said so
+        traceable = False
+        R.note(f"{name}: gym adapter's reset(seed) is not traceable with a symbolic seed ({type(e).__name__}): re-seeding decided on concrete seeds only")
 
     def replay_seed(model):
         sd = int(S.model_sv(model, seed))
@@ -183,7 +190,24 @@ def run_gym(R, name, K):
         b, _ = gw.reset(seed=sd)
         d = WC.diff_fields(a, b)
         return bool(d), {"config": name, "seed": sd, "differs": d}
-    R.prove("re-seeding reproduces the same first observation", list(ctx.assumptions), S.tree_eq(o1, o2), replay=replay_seed)
+    if traceable:
+        R.prove("re-seeding reproduces the same first observation", list(ctx.assumptions), S.tree_eq(o1, o2), replay=replay_seed)
+    # concrete seeds, including the falsy seed 0, on a wrapper whose key stream has ADVANCED (constructed with another seed, one
+    # episode started): reset(seed=s) must give the native episode driven from PRNGKey(s) with the documented schedule
+    bad_seeds = []
+    for sd in (0, 1, 7, 2 ** 31 - 1):
+        gw = W.JumanjiToGymWrapper(env, seed=5)
+        gw.reset()
+        gw.step(np.asarray(env.action_spec.generate_value()))
+        o_s, _ = gw.reset(seed=sd)
+        k1, _k = jax.random.split(jax.random.PRNGKey(sd))
+        _, ts_n = jax.jit(env.reset)(k1)
+        d = WC.diff_fields(o_s, W.jumanji_to_gym_obs(ts_n.observation))
+        if d:
+            bad_seeds.append({"seed": sd, "differs": d})
+        R.validated += 1
+    R.structural("reset(seed=s) on an advanced wrapper starts the native episode of PRNGKey(s) for s in {0, 1, 7, 2^31-1}", not bad_seeds,
+                 {"config": name, "seeds_that_do_not_reseed": bad_seeds})
     # one concrete end-to-end run of the unstubbed adapter (sanity of the stubbed conversion layer, not the deciding step)
     ok, d = replay_concrete(env, W, K)
     R.structural("concrete run of the unstubbed gym adapter == native episode (PRNGKey(seed), spec-random actions)", ok, d)
@@ -215,14 +239,22 @@ def replay_concrete(env, W, K):
             bad.append(f"step{i} scalars")
         if not gw.observation_space.contains(o):
             bad.append(f"o{i + 1} not in observation_space")
+        if tr:
+            # the episode has ended: a real driver resets now (stepping on past LAST is outside the property); the adapter's next
+            # reset must follow the documented key schedule (one more split)
+            o, _ = gw.reset()
+            k1, key = jax.random.split(key)
+            s, ts = jax.jit(env.reset)(k1)
+            if WC.diff_fields(o, W.jumanji_to_gym_obs(ts.observation)):
+                bad.append(f"reset after step{i}")
     return not bad, {"differs": bad}
 
 
-def run_dm(R, name, K):
+def run_dm(R, name, K, over=None):
     import dm_env
     import jumanji.wrappers as W
     WC.set_mode(name)
-    env = configs.make(name)
+    env = configs.make(name, **(over or {}))
     ctx = Ctx(max_unroll=24)
     key = ctx.fresh_arr("key", (2,), np.uint32)
     acts, pre = [], []
@@ -426,6 +458,11 @@ def jobs(tier, seed):
     for n in GYM_ENVS + (["RobotWarehouse", "BinPack@csv"] if tier == "thorough" else []):
         js.append((f"{n}/gym", "checks.C15", "run_gym", {"name": n, "K": K}))
         js.append((f"{n}/dm_env", "checks.C15", "run_dm", {"name": n, "K": K}))
+    # LevelBasedForaging with time_limit == K: the episode ends by TRUNCATION (LAST, discount 1) inside the relayed episode - the one
+    # case in which 'terminated' (discount 0) and 'truncated' (LAST) differ and in which dm_env must relay a non-zero final discount
+    if "LevelBasedForaging" in GYM_ENVS:
+        js.append((f"LevelBasedForaging/T={K}/gym", "checks.C15", "run_gym", {"name": "LevelBasedForaging", "K": K, "over": {"time_limit": K}}))
+        js.append((f"LevelBasedForaging/T={K}/dm_env", "checks.C15", "run_dm", {"name": "LevelBasedForaging", "K": K, "over": {"time_limit": K}}))
     for n in M2S_ENVS:
         js.append((f"{n}/multi-to-single", "checks.C15", "run_m2s", {"name": n}))
     for n in configs.ALL:
